@@ -147,7 +147,8 @@ func (o *cpObs) openConsumer(s *Sim, rg *rand.Rand) (*cpConsumer, error) {
 	c.cfg.MaxAcctLookback = uint64(1 + rg.IntN(8))
 	// every ledger (re)open with the LRU caches on allocates ~100k-entry pending buffers (0.3 s of page
 	// clearing): most consumers run without them so that a quick run affords a transfer per catchpoint
-	c.cfg.DisableLedgerLRUCache = rg.IntN(4) != 0
+	c.cfg.DisableLedgerLRUCache = rg.IntN(8) != 0
+	c.cfg.VerifiedTranscationsCacheSize, c.cfg.TxPoolSize = 200, 200 // (the verified-transaction cache is pre-sized too; not under test here)
 	c.dir = filepath.Join(s.dir, fmt.Sprintf("cpc%d-0", c.id))
 	if err := os.MkdirAll(c.dir, 0o755); err != nil {
 		return nil, err
